@@ -29,7 +29,7 @@ RULE = ("scenario = one conversation (initialize + 1..5 list/call/read/get/ping/
         "several classes, 0..3 notifications before each response, string and integer ids) run over every carrier able to express it, with "
         "per-carrier nuisance (latency, chunking); non-trivial = at least two carriers ran and the conversation has a notification, an error "
         "reply, an integer id or non-ASCII payload")
-PROBES = ["notifications_before_response", "error_reply", "int_id", "non_ascii_payload", "four_carriers", "nested_nulls"]
+PROBES = ["sse_event_before_202", "notifications_before_response", "error_reply", "int_id", "non_ascii_payload", "four_carriers", "nested_nulls"]
 TIERS = {"quick": {"runs": 3000, "wall": 45.0}, "thorough": {"runs": 80000, "wall": 560.0}}
 ASSUMPTIONS = ["fault-free by construction: only latency and chunking vary between carriers",
                "JSON-body HTTP runs only conversations without interleaved notifications (a single JSON object cannot express them)",
@@ -37,7 +37,7 @@ ASSUMPTIONS = ["fault-free by construction: only latency and chunking vary betwe
 STUB = ["stdio child: FakeProcess; HTTP wire: SimHTTPTransport"]
 SHRINK_LISTS = ["exchanges"]
 
-TEXTS = ["plain", "café €", "\U0001F600 astral", "ls ps ", "nel\u0085", "tab\tq\"uote\\", "line\\nbreak", "ひらがな"]
+TEXTS = ["plain", "café €", "\U0001F600 astral", "ls\u2028ps\u2029", "nel\u0085", "tab\tq\"uote\\", "line\\nbreak", "ひらがな"]
 HELPERS = ["tools_list", "tools_call", "resources_read", "prompts_get", "ping", "raw", "raw", "resources_list", "prompts_list"]
 
 
@@ -52,15 +52,16 @@ def generate(rng: random.Random, tier: str) -> dict:
             e["id"] = rng.choice([f"raw-{k}", k + 10, f"{k + 10}", -k - 1, 2 ** 53 + k])
         ex.append(e)
     return {"v": 1, "uuid_seed": rng.getrandbits(40), "exchanges": ex, "init": rng.random() < 0.8,
-            "nuisance": {"lat": rng.choice([0, 1, 20]), "chunk": rng.choice([None, 1, 5, 64]), "sse_chunk": rng.choice([None, 3, 16])}}
+            "nuisance": {"lat": rng.choice([0, 1, 20]), "chunk": rng.choice([None, 1, 5, 64]), "sse_chunk": rng.choice([None, 3, 16]),
+                         "sse_post_lat": rng.choice([1, 1, 30, 200]), "sse_event_first": rng.random() < 0.4}}
 
 
 def simplify(scn):
     if scn["init"]:
         c = copy.deepcopy(scn); c["init"] = False; yield c
     n = scn["nuisance"]
-    if n["lat"] or n["chunk"] or n["sse_chunk"]:
-        c = copy.deepcopy(scn); c["nuisance"] = {"lat": 0, "chunk": None, "sse_chunk": None}; yield c
+    if n["lat"] or n["chunk"] or n["sse_chunk"] or n.get("sse_event_first"):
+        c = copy.deepcopy(scn); c["nuisance"] = {"lat": 0, "chunk": None, "sse_chunk": None, "sse_post_lat": 1, "sse_event_first": False}; yield c
     for i, e in enumerate(scn["exchanges"]):
         for key, val in (("notifs", 0), ("nulls", False), ("text", "plain"), ("data", None)):
             if e.get(key) != val:
@@ -281,7 +282,11 @@ def _run_sse(scn):
                 def push():
                     for p in pieces:
                         box["stream"].push(p)
-                sim.at(sim.now() + ticks(n["lat"]) + ticks(2), push, tie=0)
+                post_lat = n.get("sse_post_lat", 1)
+                # the events may reach the client before or after the 202 acknowledgement of the POST
+                ev_at = ticks(max(0, post_lat - 1)) if n.get("sse_event_first") and post_lat > 1 else ticks(post_lat) + ticks(n["lat"]) + ticks(1)
+                sim.at(sim.now() + ev_at, push, tie=0)
+                return {"latency": ticks(post_lat), "status": 202, "chunks": [(0, b"Accepted")]}
             return {"latency": ticks(1), "status": 202, "chunks": [(0, b"Accepted")]}
 
         transport = SimHTTPTransport(sim, server)
@@ -389,6 +394,8 @@ def execute(scn: dict) -> dict:
         probe("nested_nulls")
     if len(results) == 4:
         probe("four_carriers")
+    if scn["nuisance"].get("sse_event_first") and scn["nuisance"].get("sse_post_lat", 1) > 1:
+        probe("sse_event_before_202")
     out["nontrivial"] = len(results) >= 2 and any(out["probes"].get(p) for p in ("notifications_before_response", "error_reply", "int_id", "non_ascii_payload"))
     out["isig"] = hashlib.blake2b(("|".join(isigs) + repr([(e["helper"], e["notifs"], e["reply"]) for e in scn["exchanges"]])).encode(), digest_size=8).hexdigest()
     out["history"] = {"carriers": list(results), "conversation": [(e["helper"], e.get("id"), e["notifs"], e["reply"]) for e in scn["exchanges"]],
